@@ -44,6 +44,7 @@ type Obligation struct {
 	Model    map[string]string `json:"model,omitempty"`
 	Pos      string            `json:"pos,omitempty"`
 	Decisions []int            `json:"decisions,omitempty"`
+	Sched    []int             `json:"schedule,omitempty"` // the pure nondeterministic choices (select case, map order, rand) on the way
 	Script   string            `json:"-"`
 	Kind     string            `json:"kind"` // assert | panic | deadlock | unwind
 	Detail   string            `json:"detail,omitempty"`
@@ -93,6 +94,10 @@ type Path struct {
 	markers   map[int]*Term
 	hashPre   map[string]string // hex hash -> preimage (symstr.go)
 	thShares  map[string]thShare // share public key hex -> threshold group (cryptox.go)
+	sched      []int
+	schedReplay []int
+	schedPos   int
+	globalRand *randState
 	f2iMemo   map[interface{}]*Term
 	flMemo    map[*Term]*Term
 	fdivInfo  map[*Term][2]*Term // abstract float quotient -> (x, y) wide integer terms (fpcut.go)
@@ -163,6 +168,25 @@ func (p *Path) feasible(c *Term) Result {
 // decide picks one of mutually exclusive, exhaustive alternatives. conds[i]==nil means the
 // alternative is unconstrained (pure nondeterminism, e.g. a map order).
 func (p *Path) decide(conds []*Term, what string) int {
+	pure := true
+	for _, c := range conds {
+		if c != nil {
+			pure = false
+		}
+	}
+	if pure {
+		if p.concrete != nil {
+			// concrete re-execution: follow the recorded schedule where there is one
+			d := 0
+			if p.schedPos < len(p.schedReplay) && p.schedReplay[p.schedPos] < len(conds) {
+				d = p.schedReplay[p.schedPos]
+			}
+			p.schedPos++
+			p.decisions = append(p.decisions, d)
+			return d
+		}
+		defer func() { p.sched = append(p.sched, p.decisions[len(p.decisions)-1]) }()
+	}
 	n := len(p.decisions)
 	if n < len(p.prefix) {
 		d := p.prefix[n]
@@ -518,6 +542,7 @@ func (p *Path) check(cond *Term, label, kind, pos string) {
 		// definitely violated on this (feasible) path: get a model of the path condition
 		r, m := p.solver.CheckModel(p.varNames())
 		ob.Decisions = append([]int{}, p.decisions...)
+		ob.Sched = append([]int{}, p.sched...)
 		if r == Sat {
 			ob.Result = "sat"
 			ob.Model = p.modelMap(m)
@@ -541,6 +566,7 @@ func (p *Path) check(cond *Term, label, kind, pos string) {
 		ob.Result = "sat"
 		ob.Model = p.modelMap(m)
 		ob.Decisions = append([]int{}, p.decisions...)
+		ob.Sched = append([]int{}, p.sched...)
 	default:
 		ob.Result = "unknown"
 		ob.Detail = lastSolverError
